@@ -57,8 +57,13 @@ func init() {
 		supis, ids := map[string]bool{}, map[int64]bool{}
 		sameLen, samePrefix, creds := 1, 1, 1
 		prefix := "imsi-" + imsi[:3+mncLen]
+		// the whole population is created and KEPT first (the emulator's ueList), then looked at: a context handed out twice
+		// (a recycled block, a pool) shows only when the early UEs are read after the late ones exist
+		ues := make([]*tglib.RanUeContext, 0, n)
 		for j := 0; j < n; j++ {
-			ue := stgutg.CreateUE(imsi, j, k, opc, op)
+			ues = append(ues, stgutg.CreateUE(imsi, j, k, opc, op))
+		}
+		for _, ue := range ues {
 			supis[ue.Supi] = true
 			ids[ue.RanUeNgapId] = true
 			if len(ue.Supi) != len("imsi-")+len(imsi) {
